@@ -32,7 +32,7 @@ ASSUMPTIONS = [
                'and at most the requested number; it does not require a particular s']
 EXPECTED_PROBES = {'C17': ['spike_on_bound', 'stride_not_dividing', 'unknown_cluster',
                            'subsampled_cluster', 'exactly_n_eligible', 'empty_request',
-                           'subset_and_chunks', 'kept_more_than_chunks',
+                           'subset_and_chunks', 'kept_more_than_chunks', 'float_chunk_grid', 'subset_with_repeated_id',
                            'cluster_requested_twice']}
 
 
@@ -56,6 +56,7 @@ def gen(rng, prop, tier):
     ids = rng.sample(range(0, 12), n_clu)
     clusters = [rng.choice(ids) for _ in range(ns)]
     cfg = {'bounds': bounds, 'times': times, 'time_dtype': rng.choice(['int64', 'uint64', 'int32']),
+           'scale': rng.choice([1, 1, 1, 1.1, 0.37, 2.5]),
            'clusters': clusters, 'n_kept': rng.randint(1, m + 2),
            'draw': rng.choice(seams.DRAW_STRATEGIES), 'seed': rng.randint(0, 2 ** 31)}
     ops = []
@@ -72,6 +73,10 @@ def gen(rng, prop, tier):
         subset = None
         if rng.random() < 0.35 and ns:
             subset = sorted(rng.sample(range(ns), rng.randint(0, ns)))
+            if subset and rng.random() < 0.2:
+                # an id listed twice (a caller concatenating two selections)
+                subset = subset + [rng.choice(subset) for _ in range(rng.randint(1, 3))]
+                subset.sort()
             if rng.random() < 0.3:
                 rng.shuffle(subset)
         ops.append({'op': 'call', 'n': n, 'clusters': req, 'chunks': rng.random() < 0.6,
@@ -88,6 +93,10 @@ def simplify(plan):
     if cfg['time_dtype'] != 'int64':
         p = copy.deepcopy(plan)
         p['cfg']['time_dtype'] = 'int64'
+        yield p
+    if cfg.get('scale', 1) != 1:
+        p = copy.deepcopy(plan)
+        p['cfg']['scale'] = 1
         yield p
     subsets_used = any(op.get('subset') for op in plan['ops'])
     if not subsets_used:
@@ -127,8 +136,17 @@ def execute(plan, ctx):
     seams.import_phylib()
     from phylib.io.array import SpikeSelector
     cfg = plan['cfg']
-    bounds = cfg['bounds']
-    times = np.array(cfg['times'], dtype=cfg['time_dtype'])
+    scale = cfg.get('scale', 1)
+    if scale != 1:
+        # a grid in seconds: bounds and times are floats, bounds not whole numbers
+        bounds = [b * scale for b in cfg['bounds']]
+        tvals = [t * scale for t in cfg['times']]
+        times = np.array(tvals, dtype=np.float64)
+        ctx.probe('float_chunk_grid')
+    else:
+        bounds = cfg['bounds']
+        tvals = cfg['times']
+        times = np.array(tvals, dtype=cfg['time_dtype'])
     clusters = np.array(cfg['clusters'], dtype=np.int64)
     ns = len(times)
     spc = {}
@@ -144,7 +162,7 @@ def execute(plan, ctx):
             sel = ctx.real('SpikeSelector', SpikeSelector, get_spikes_per_cluster=get_spc,
                            spike_times=times, chunk_bounds=bounds, n_chunks_kept=cfg['n_kept'])
             ctx.op('build')
-            kept = [int(x) for x in np.asarray(sel.chunks_kept).ravel()]
+            kept = [float(x) for x in np.asarray(sel.chunks_kept).ravel()]
             ctx.ev('build', kept)
             n_chunks = len(bounds) - 1
             # -- chunk-grid clause
@@ -169,7 +187,7 @@ def execute(plan, ctx):
                       lambda: {'idx': idx, 'requested': cfg['n_kept']})
             if cfg['n_kept'] > n_chunks:
                 ctx.probe('kept_more_than_chunks')
-            on_bound = any(t in bounds for t in cfg['times'])
+            on_bound = any(t in bounds for t in tvals)
             if on_bound:
                 ctx.probe('spike_on_bound')
 
@@ -194,9 +212,9 @@ def execute(plan, ctx):
                           'selected-spike-of-unrequested-cluster',
                           lambda: {'got': g, 'requested': sorted(req)})
                 if op['chunks']:
-                    ctx.check(all(in_kept(cfg['times'][x]) for x in g),
+                    ctx.check(all(in_kept(tvals[x]) for x in g),
                               'selected-spike-outside-kept-chunks',
-                              lambda: {'got': g, 'times': [cfg['times'][x] for x in g],
+                              lambda: {'got': g, 'times': [tvals[x] for x in g],
                                        'kept': pairs})
                 if op['subset'] is not None:
                     sub = set(op['subset'])
@@ -204,6 +222,8 @@ def execute(plan, ctx):
                               lambda: {'got': g})
                     if op['chunks']:
                         ctx.probe('subset_and_chunks')
+                    if len(sub) < len(op['subset']):
+                        ctx.probe('subset_with_repeated_id')
                 gs = set(g)
                 if len(set(op['clusters'])) < len(op['clusters']):
                     ctx.probe('cluster_requested_twice')
@@ -212,7 +232,7 @@ def execute(plan, ctx):
                     if not members:
                         ctx.probe('unknown_cluster')
                     elig = [i for i in members
-                            if (not op['chunks'] or in_kept(cfg['times'][i]))
+                            if (not op['chunks'] or in_kept(tvals[i]))
                             and (op['subset'] is None or i in set(op['subset']))]
                     chosen = [i for i in elig if i in gs]
                     n = op['n']
